@@ -33,9 +33,9 @@ MENU = [
     # name, eid, sev, flags, creator, subsys, commit, comp, sections
     ('m_serv.pel', 0x50000008, 0x40, 0xA000, 'O', 0x8D, '2024010203040506', 0x1000, ['PS', 'UD', 'LP', 'UDx']),
     ('a_hidden.pel', 0x50000007, 0x40, 0x6000, 'B', 0x10, '2024020304050607', 0x2000, ['PS']),
-    ('Z_info', 0x50000001, 0x00, 0x0000, 'O', 0x20, '2024030405060708', 0x3000, ['PS']),
+    ('.Z_info', 0x50000001, 0x00, 0x0000, 'O', 0x20, '2024030405060708', 0x3000, ['PS']),
     ('B_infosa.txt', 0x50000006, 0x00, 0x8000, 'H', 0x30, '2024040506070809', 0x4142, ['PS']),
-    ('k_term.pel', 0x50000002, 0x51, 0x2000, 'O', 0x40, '2024050607080910', 0x5000, ['PS']),
+    ('k_term.pel', 0x50000002, 0x51, 0x2000, 'O', 0x40, '2024050607080910', 0x5000, ['PSc', 'MT']),
     ('K_term.pel', 0x50000005, 0x20, 0x0000, 'T', 0x50, '2024060708091011', 0x6000, ['PS']),
     ('y_nosrc.pel', 0x50000003, 0x10, 0x2000, 'O', 0x60, '2024070809101112', 0x7000, ['UD']),
     ('d_pre.txt', 0x50000004, 0x71, 0x2000, 'K', 0x70, '2024080910111213', 0x8000, ['UD', 'LP', 'EH', 'PS', 'MT']),
@@ -54,6 +54,12 @@ def pel_bytes(i):
             sections.append({'t': 'PS', 'ascii': ('BD%02X%04X' % (0x8D + i, 0x1000 + i)).ljust(32)})
         elif t == 'UD':
             sections.append({'t': 'UD', 'comp': 0x4142, 'payload': bytes([i] * 12).hex()})
+        elif t == 'PSc':
+            # callouts whose FRU identity carries every / some / none of the optional fields (the list modes stop after this
+            # section, the full decode must find the next one exactly behind it)
+            sections.append({'t': 'PS', 'ascii': ('BD%02X%04X' % (0x8D + i, 0x1000 + i)).ljust(32), 'callouts': [
+                pelgen.CALLOUT_FULL, {'prio': 0x4D, 'loc': '', 'fru': {'flags': 0x10}}, pelgen.CALLOUT_PROC,
+                {'prio': 0x4C, 'loc': 'U1-P1', 'fru': {'flags': 0x15, 'ccin': 'CC02', 'sn': 'SERIAL000002'}}]})
         elif t == 'LP':
             # name length 5 + one target: 1 pad byte (a decoder that mis-skips the padding loses the sections after it)
             sections.append({'t': 'LP', 'name': 'lpar5', 'targets': [0x0001]})
@@ -178,7 +184,7 @@ def check_combo(d, files, sw, slist, extra, want_x=False):
 def eval_case(case):
     impl.ensure(False)
     files = [i for i in range(8) if case['mask'] >> i & 1]
-    with tempfile.TemporaryDirectory(prefix='c08_', dir=clidrv.scratch_root()) as d:
+    with tempfile.TemporaryDirectory(prefix='c08_', dir=clidrv.odd_root()) as d:
         for i in files:
             with open(os.path.join(d, MENU[i][0]), 'wb') as f:
                 f.write(pel_bytes(i))
@@ -198,7 +204,7 @@ def run_chunk(chunk):
     files = [i for i in range(8) if mask >> i & 1]
     thorough = chunk['tier'] == 'thorough'
     trans = 0
-    with tempfile.TemporaryDirectory(prefix='c08_', dir=clidrv.scratch_root()) as d:
+    with tempfile.TemporaryDirectory(prefix='c08_', dir=clidrv.odd_root()) as d:
         for i in files:
             with open(os.path.join(d, MENU[i][0]), 'wb') as f:
                 f.write(pel_bytes(i))
@@ -236,7 +242,7 @@ def run_chunk(chunk):
 def _subproc(res):
     n_ok = 0
     trans = 0
-    with tempfile.TemporaryDirectory(prefix='c08s_', dir=clidrv.scratch_root()) as d:
+    with tempfile.TemporaryDirectory(prefix='c08s_', dir=clidrv.odd_root()) as d:
         for i in range(8):
             with open(os.path.join(d, MENU[i][0]), 'wb') as f:
                 f.write(pel_bytes(i))
